@@ -26,9 +26,9 @@ def run(c):
     if not b:
         return
     if c.tier == "quick":
-        n, en = 300, 120
+        n, en = 900, 300
     else:
-        n, en = 8000, 2500
+        n, en = 20000, 0   # 0 = every enumerated join x sync script (10 819)
     rc, out = c.run([b, "-out", c.build, "-seed", str(c.seed), "-n", str(n), "-enum", str(en)], timeout=2400)
     if rc != 0:
         c.break_("corr", "c07corr harness run failed", out)
